@@ -45,8 +45,18 @@ def _binary_op(op, lhs, rhs):
     if lhs.nvec != rhs.nvec:
         raise ValueError("Operands do not have the same number of components.")
 
+    inplace = op in ("__iadd__", "__isub__", "__imul__", "__itruediv__")
+    if inplace and any(
+        np.may_share_memory(left._array, right._array)
+        for left in lhs._xyz.values()
+        for right in rhs._xyz.values()
+    ):
+        # The right-hand side is (a view of) a component that is updated below, e.g.
+        # `v *= v.x`: every component must be combined with its original values
+        rhs = rhs.copy()
+
     out = {c: getattr(xyz, op)(getattr(rhs, c)) for c, xyz in lhs._xyz.items()}
-    if op in ("__iadd__", "__isub__", "__imul__", "__itruediv__"):
+    if inplace:
         # The components have been updated in place: keep the same Vector, so that
         # other references to it see the same values and unit.
         return lhs
